@@ -30,7 +30,7 @@ TRUSTED = ["hashlib (ripemd160, sha1, sha256) — the hash op codes call the sam
            "(legacy rules, CLTV and CSV active, policy flags off); it is not itself checked against Bitcoin Core",
            "harness instrumentation: a sentinel witness object and a stub for buidl.script.encode_varstr detect when "
            "Script.evaluate enters its P2SH / witness special cases (reported as outcome 2)"]
-ASSUMPTIONS = ["the transaction context is a Tx with one TxIn: 0 <= locktime, sequence < 2^32, 0 <= version < 2^32",
+ASSUMPTIONS = ["the transaction context is a Tx with 1..3 TxIns (the evaluated one at a varying index): 0 <= locktime, sequence < 2^32, 0 <= version < 2^32",
                "the signature op codes 172-175/186 are outside the op code set of this property (C06 covers them)",
                "consensus resource limits (520-byte pushes, 10000-byte scripts, 201 op codes, 1000 stack items) are "
                "outside the modelled semantics: the spec answers OutOfScope for pushes > 520 bytes and scripts > 10000 "
@@ -74,9 +74,26 @@ def _raise_special(*a, **k):
 
 
 def mk_tx(lt, sq, ver):
-    txin = TxIn(b"\x00" * 32, 0, sequence=sq)
-    txin.witness = _SentinelWitness()
-    return Tx(ver, [txin], [], lt)
+    """The transaction context.  Consensus looks only at nLockTime, nVersion and the nSequence of the input being
+    spent, so the context is completed (deterministically from the three values) to a transaction with 1..3 inputs
+    in which the evaluated input sits at index tx.verif_idx and the OTHER inputs carry sequences of the other
+    classes (final / non-final, disable bit, time/height type): a rule that looks at another input or at all of them
+    shows up as a disagreement with the model, which is given (lt, sq, ver) only."""
+    h = (lt * 2654435761 + sq * 40503 + ver * 97 + 12345) & 0xFFFFFFFF
+    k = 1 + (h >> 3) % 3
+    idx = (h >> 7) % k
+    others = [0xFFFFFFFF, 0, 0xFFFFFFFE, sq ^ 0x80000000, sq ^ 0x00400000, (sq + 1) & 0xFFFFFFFF, 0x00400001, 5]
+    if sq == 0xFFFFFFFF:
+        others = [0, 0xFFFFFFFE, 5, 0x00400001]
+    ins = []
+    for j in range(k):
+        s_j = sq if j == idx else others[((h >> 11) + j) % len(others)]
+        txin = TxIn(bytes([j]) * 32, j, sequence=s_j)
+        txin.witness = _SentinelWitness()
+        ins.append(txin)
+    tx = Tx(ver, ins, [], lt)
+    tx.verif_idx = idx
+    return tx
 
 
 TX_OPS = (172, 173, 174, 175, 177, 178, 186)
@@ -88,7 +105,7 @@ def call_op(o, stack, alt, tx):
     if o in (107, 108):
         return fn(stack, alt)
     if o in TX_OPS:
-        return fn(stack, tx, 0)
+        return fn(stack, tx, tx.verif_idx)
     return fn(stack)
 
 
@@ -113,7 +130,7 @@ def run_evaluate(cmds, lt, sq, ver, ap=0, aw=0):
     saved = bscript.encode_varstr
     bscript.encode_varstr = _raise_special
     try:
-        return 1 if Script(list(cmds)).evaluate(tx, 0, allow_p2sh=bool(ap), allow_witness=bool(aw)) else 0
+        return 1 if Script(list(cmds)).evaluate(tx, tx.verif_idx, allow_p2sh=bool(ap), allow_witness=bool(aw)) else 0
     except _Special:
         return 2
     except Exception:  # noqa
@@ -246,7 +263,7 @@ def p_eval(cmds, lt, sq, ver, ap=0, aw=0):
 def _set_ctx(tx, lt, sq, ver):
     from buidl.timelock import Locktime, Sequence
     tx.locktime = Locktime(lt)
-    tx.tx_ins[0].sequence = Sequence(sq)
+    tx.tx_ins[tx.verif_idx].sequence = Sequence(sq)
     tx.version = ver
 
 
@@ -255,7 +272,7 @@ def _eval_obj(script, tx, ap, aw):
     saved = bscript.encode_varstr
     bscript.encode_varstr = _raise_special
     try:
-        return 1 if script.evaluate(tx, 0, allow_p2sh=bool(ap), allow_witness=bool(aw)) else 0
+        return 1 if script.evaluate(tx, tx.verif_idx, allow_p2sh=bool(ap), allow_witness=bool(aw)) else 0
     except _Special:
         return 2
     except Exception:  # noqa
